@@ -148,10 +148,26 @@ pub fn encode_row(s: &Schema, r: &Row) -> Vec<u8> {
             body.push(0);
         }
     } else {
+        // Sub-rows share one string heap behind the last sub-row. A string cell holds its offset relative to the
+        // end of *its own* sub-row's fixed-size region (the convention of the reference reader, Lumina:
+        // ReadString(offset, structOffset) = structOffset + dataOffset + stored value).
+        let has_strings = s.columns.iter().any(|c| c.ty == 0);
+        let stride = s.data_offset as usize + 2;
+        let heap_start = r.subrows.len() * stride;
+        let mut heap = Vec::new();
         for (k, sr) in r.subrows.iter().enumerate() {
             body.extend_from_slice(&sr.id.to_be_bytes());
-            body.extend_from_slice(&encode_fixed(s, &sr.cells, r.junk ^ (k as u64 + 1), &mut None));
+            let mut fixed = if has_strings { encode_fixed(s, &sr.cells, r.junk ^ (k as u64 + 1), &mut Some(&mut heap)) } else { encode_fixed(s, &sr.cells, r.junk ^ (k as u64 + 1), &mut None) };
+            let base = k * stride + 2 + s.data_offset as usize;
+            for c in s.columns.iter().filter(|c| c.ty == 0) {
+                let o = c.offset as usize;
+                let within = u32::from_be_bytes([fixed[o], fixed[o + 1], fixed[o + 2], fixed[o + 3]]);
+                let stored = (heap_start - base) as u32 + within;
+                fixed[o..o + 4].copy_from_slice(&stored.to_be_bytes());
+            }
+            body.extend_from_slice(&fixed);
         }
+        body.extend_from_slice(&heap);
     }
     let mut w = W::new();
     w.u32be(body.len() as u32).u16be(r.subrows.len() as u16);
